@@ -87,7 +87,10 @@ let ops_of_token np tok : op list =
        | "ps" :: _ -> [LibMsg (nat p, LPieceStart)]
        | _ -> [])
   | 'A' -> if tok = "A:ptick" then PexTick :: List.init np (fun c -> PexEnable (nat c))
-           else if tok = "A:max:1" then [SetMax (z_of_int 1)] else []
+           else if tok = "A:max:1" then [SetMax (z_of_int 1)]
+           else if String.length tok > 9 && String.sub tok 0 9 = "A:maxpex:" then
+             [SetMaxPex (z_of_string (String.sub tok 9 (String.length tok - 9)))]
+           else []
   | 'D' -> [HashDone (n_of_string (List.nth f 1))]
   | 'E' -> [Abort (nat (peer_of hd))]
   | 'V' -> []
